@@ -62,6 +62,47 @@ func checkC16(c *Ctx, w *World) {
 			effects = append(effects, eff{in, "SetEndpoints"})
 		}
 	})
+	// the same effects reached through a helper called (or deferred: it then runs at every later return) from the update
+	eachInstr(upd, func(in ssa.Instruction) {
+		cc := callCommon(in)
+		if cc == nil {
+			return
+		}
+		if _, isGo := in.(*ssa.Go); isGo {
+			return
+		}
+		for _, callee := range p.calleesOf(cc) {
+			if callee == g.stop || callee == g.newMC || callee.Pkg == nil || callee.Pkg.Pkg.Name() != "grpcgcp" {
+				continue
+			}
+			var what []string
+			for fn := range p.reachableModule(callee) {
+				for _, a := range g.ai.ByFn[fn] {
+					if !a.isWrite() || freshAt(a.Base, a.Instr) {
+						continue
+					}
+					if a.Field == "GCPMultiEndpoint.mes" || a.Field == "GCPMultiEndpoint.defaultName" || (a.Field == "GCPMultiEndpoint.pools" && a.What == "map-delete") {
+						what = append(what, a.What+" "+a.Field)
+					}
+				}
+				eachInstr(fn, func(x ssa.Instruction) {
+					if call, ok := x.(*ssa.Call); ok {
+						n := calleeOf(&call.Call).Name()
+						if strings.HasSuffix(n, "grpc.(*ClientConn).Close") || isCallTo(call, g.stop, p) || (call.Call.IsInvoke() && call.Call.Method.Name() == "SetEndpoints") {
+							what = append(what, "call "+n)
+						}
+					}
+				})
+			}
+			if len(what) > 0 {
+				kind := "call"
+				if _, isD := in.(*ssa.Defer); isD {
+					kind = "deferred call (runs at every later return, including error returns)"
+				}
+				effects = append(effects, eff{in, kind + " of " + fname(callee) + ": " + strings.Join(what, ", ")})
+			}
+		}
+	})
 	c.floor("C16.effects", len(effects), 5)
 	// pool additions are routing-neutral only if guarded by "no pool yet" — checked by C15.dial; re-check cheaply here
 	for _, a := range g.ai.ByFn[upd] {
@@ -224,6 +265,28 @@ func checkC16(c *Ctx, w *World) {
 			}
 		}
 		broken = append(broken, c15.fatal...)
+		// pools[me.Current()]: Current() must name an endpoint of the MultiEndpoint's latest accepted list
+		// (which all have pools): the membership rules of C13 are premises too
+		c13 := newCtx("C13", c.Tier, c.Repo, c.Verif)
+		func() {
+			defer func() {
+				if r := recover(); r != nil {
+					c13.fatalf("panic: %v", r)
+				}
+			}()
+			checkC13(c13, w)
+		}()
+		for _, o := range c13.Obs {
+			if o.Status == "ok" {
+				continue
+			}
+			for _, fam := range []string{"C13.member", "C13.writers", "C13.nonempty", "C13.reject", "C13.fallback-first"} {
+				if o.Rule == fam {
+					broken = append(broken, o.Rule+" @ "+o.Construct)
+				}
+			}
+		}
+		broken = append(broken, c13.fatal...)
 		// defaultName is assigned only when the options contain it
 		hasDefault := func(v ssa.Value) bool {
 			e, ok := stripConv(v).(*ssa.Extract)
